@@ -22,21 +22,6 @@ Lemma rk4_gen_affine_system (L : VS -> VS) (g0 g1 : VS) getdt t y :
   fst (RK4_gen VS (affine_rhs VS L g0 g1) getdt t y) = vtaylor y (affine_derivs VS L g0 g1 t y) (getdt t y).
 Proof. intros HA HS. rewrite rk4_gen_is_doc. cbn [fst]. apply rk4_doc_affine_system; assumption. Qed.
 
-Variable F : R -> VS -> VS.
-Variable userdt : VS -> R.
-Variables dtmin dtmax : R.
-
-(* what DESolver.solve runs for SolverType.RK4 on a model without derivative correction: the
-   classical scheme applied to the MODEL's right-hand side, called at t, t+dt/2, t+dt/2, t+dt *)
-Lemma solver_rk4_is_classic t x :
-  let dt := clamp_dt dtmin dtmax (userdt (F t x)) in
-  solver_RK4_gen Rops VS (@vadd VS) (@smul VS) F userdt dtmin dtmax t x =
-  (rk_step VS F classic4 t x dt, dt).
-Proof.
-  cbv zeta. rewrite <- rk4_doc_is_rk.
-  unfold solver_RK4_gen, RK4Iterator_gen, getdXdt_gen, getdXdt_dt_gen, updateX_gen, RK4_doc, clamp_dt.
-  cbv zeta. cbn [T Rops ltb snd fst]. pair_eq.
-Qed.
 End BridgeB.
 
 (* the generated RK4 is a Runge-Kutta method whose tableau satisfies all order conditions up to
